@@ -76,7 +76,9 @@ func runC02(c *Ctx) {
 	c.Rule("C02.O5", "E1,E4", "readEvents atomic-only; task submitted iff increment returned 1; over-count edge undoes; task returns only when the decrement returned 0", 4)
 	c.Rule("C02.O6", "E9", "every make([]byte,k) that feeds a kernel read has a provably positive k (constant, normalised config field, or normalised parameter)", 2)
 	c.Rule("C02.O7", "E5", "connsUnix element writers are addConn, addDialer and deleteConn; deleteConn removes only its own entry", 2)
+	c.Rule("C02.O9", "E4,E5", "Engine.Start: every engine field the poller loops read is assigned before the first poller goroutine is started (no go statement reaches a later store)", 1)
 	c.Rule("C02.O8", "E4", "udpConn.getConn: same key for lookup and insert; session created, stored and announced on the miss edge only", 2)
+	c02Published(c)
 
 	loops := c.readLoops()
 	if len(loops) != 3 {
@@ -645,4 +647,90 @@ func (c *Ctx) provablyPositive(v ssa.Value, fn *ssa.Function, depth int) (bool, 
 		return false, field + " is never normalised"
 	}
 	return false, c.P.Desc(rv)
+}
+
+// c02Published: in Engine.Start, no `go (*poller).start` may be followed by a
+// store to an Engine field that the poller goroutines read.
+func c02Published(c *Ctx) {
+	start := c.Fn("C02.O9", "(*nbio.Engine).Start")
+	pstart := c.Fn("C02.O9", "(*nbio.poller).start")
+	if start == nil || pstart == nil {
+		return
+	}
+	// forward closure of the poller goroutine
+	reach := map[*ssa.Function]bool{}
+	var walk func(f *ssa.Function)
+	walk = func(f *ssa.Function) {
+		if reach[f] {
+			return
+		}
+		reach[f] = true
+		for _, g := range ir.WithClosures(f) {
+			reach[g] = true
+		}
+		for _, g := range c.staticCallees(f) {
+			walk(g)
+		}
+	}
+	walk(pstart)
+	reads := map[string]bool{}
+	for f := range reach {
+		for _, b := range f.Blocks {
+			for _, in := range b.Instrs {
+				if u, ok := in.(*ssa.UnOp); ok {
+					if fa, ok := u.X.(*ssa.FieldAddr); ok && u.Op == token.MUL {
+						if k := c.P.FieldKey(fa); strings.HasPrefix(k, "nbio.Engine.") || strings.HasPrefix(k, "nbio.Config.") {
+							reads[k] = true
+						}
+					}
+				}
+			}
+		}
+	}
+	fi := c.P.Info(start)
+	var gos []ssa.Instruction
+	for _, b := range start.Blocks {
+		for _, in := range b.Instrs {
+			if g, ok := in.(*ssa.Go); ok {
+				if callee := ir.StaticCallee(&g.Call); callee == pstart {
+					gos = append(gos, in)
+				}
+			}
+		}
+	}
+	if len(gos) == 0 {
+		c.Unres("C02.O9", fnKey(c.P, start, "configuration published before the loops start"), "no go (*poller).start found")
+		return
+	}
+	vis, _ := fi.Reach(gos, nil)
+	bad := ""
+	nst := 0
+	for _, b := range start.Blocks {
+		for _, in := range b.Instrs {
+			st, ok := in.(*ssa.Store)
+			if !ok {
+				continue
+			}
+			fa, ok := st.Addr.(*ssa.FieldAddr)
+			if !ok {
+				continue
+			}
+			k := c.P.FieldKey(fa)
+			if !reads[k] {
+				continue
+			}
+			nst++
+			if vis[in] {
+				if bad != "" {
+					bad += "; "
+				}
+				bad += k + " is assigned at " + c.Pos(in) + " after a poller goroutine was started"
+			}
+		}
+	}
+	if bad != "" {
+		bad += ": the loops read these when they start or on their first event, so a poller can run in the wrong mode (one-shot descriptors never re-armed) or without its executor"
+	}
+	c.Cond(bad == "", "C02.O9", fnKey(c.P, start, "configuration published before the loops start"), c.FnPos(start),
+		fmt.Sprintf("%d go statement(s), %d engine field(s) read by the loops, %d store(s) in Start all before the first go", len(gos), len(reads), nst), bad)
 }
